@@ -156,11 +156,9 @@ Theorem inl_range_sound r a hi lo : okn a -> 0 < snd r -> 0 <= lo <= hi ->
   forall l e, inl_range r a hi lo = [(l, e)] -> assign_value env l e = Range_propagate (snd r) hi lo (val a).
 Proof.
   intros Ha Hr Hl l e H; inversion H; subst; clear H. unfold assign_value, Range_propagate. ctx.
-  cbn [reval]. cbv zeta. unfold Wire_put, py_shl, py_shr.
-  change (Z.shiftl 1 (hi - lo + 1) - 1) with (mask (hi - lo + 1)).
-  change (Z.land (Z.shiftr (val a) lo) (mask (hi - lo + 1))) with (trunc (hi - lo + 1) (Z.shiftr (val a) lo)).
-  change (Z.land (trunc (hi - lo + 1) (Z.shiftr (val a) lo)) (Z.shiftl 1 (snd r) - 1))
-    with (trunc (snd r) (trunc (hi - lo + 1) (Z.shiftr (val a) lo))).
+  cbn [reval]. norm_trunc.
+  (* the number of kept bits may be written hi-lo+1, hi+1-lo, ... *)
+  match goal with |- context [trunc ?n (Z.shiftr (val a) lo)] => replace n with (hi - lo + 1) by lia end.
   rewrite vtrunc_vtrunc_le by lia. rewrite !vtrunc_trunc by lia. reflexivity.
 Qed.
 
